@@ -4,8 +4,8 @@ import QipVerif.Model.Decompose
 # C03 — consistency of the exact (ℤ[ζ₁₆][1/2]) and the complex denotation of fixed-angle circuits
 
 `gateDenE k g = some D` implies that the complex semantics `semD` of the gate is `toMatD k D`
-(rotations and PHASEGATE at multiples of π/4, GLOBALPHASE at multiples of π/8, every fixed gate of
-the library), hence `denE k gs = some D → denG k ρ gs = some (toMatD k D)`, and a kernel-checked
+(rotations, controlled rotations and PHASEGATE/CPHASE at multiples of π/4, GLOBALPHASE at multiples
+of π/8, every fixed gate of the library), hence `denE k gs = some D → denG k ρ gs = some (toMatD k D)`, and a kernel-checked
 `ruleSoundE m body g₀ = true` yields an identity between complex operators on the canonical
 placement (`rule_canon`).
 -/
@@ -105,6 +105,33 @@ theorem toMatD_phasegate (n : ℤ) (θ : ℝ) (hθ : θ = (n : ℝ) * (Real.pi /
   rw [h2, ← Cyc.toC_zpow]
   ext i j; fin_cases i <;> fin_cases j <;> simp
 
+theorem enc_two (x : St 2) : enc x = 2 * (x 0).val + (x 1).val := by
+  simp [enc, bitsL, undigits, prodL, List.ofFn_succ]
+  ring
+
+theorem ctrl_def (u : DMat) : GateE.ctrl u =
+    ⟨u.e, [[Cyc.ofInt (2 ^ u.e), Cyc.zero, Cyc.zero, Cyc.zero], [Cyc.zero, Cyc.ofInt (2 ^ u.e), Cyc.zero, Cyc.zero],
+      [Cyc.zero, Cyc.zero, u.m.get 0 0, u.m.get 0 1], [Cyc.zero, Cyc.zero, u.m.get 1 0, u.m.get 1 1]]⟩ := rfl
+
+theorem toMatD_ctrl (e : ℕ) (a b c d : Cyc) (M : Matrix (Fin 2) (Fin 2) ℂ)
+    (hM : toMatD 1 ⟨e, [[a, b], [c, d]]⟩ = mat1 M) :
+    toMatD 2 (GateE.ctrl ⟨e, [[a, b], [c, d]]⟩) = ctrl1 M := by
+  rw [toMatD_one_eq] at hM
+  have hM' : M = ((1 : ℂ) / 2 ^ e) • !![Cyc.toC a, Cyc.toC b; Cyc.toC c, Cyc.toC d] := by
+    ext i j
+    have := congrFun (congrFun hM (fun _ => i)) (fun _ => j)
+    simpa [mat1] using this.symm
+  subst hM'
+  have h2 : (2 : ℂ) ^ e ≠ 0 := pow_ne_zero _ (by norm_num)
+  rw [ctrl_def]
+  ext x y
+  simp only [toMatD, toMat, enc_two, ctrl1, Matrix.smul_apply, CMat.get]
+  generalize x 0 = i0
+  generalize x 1 = i1
+  generalize y 0 = j0
+  generalize y 1 = j1
+  fin_cases i0 <;> fin_cases i1 <;> fin_cases j0 <;> fin_cases j1 <;> simp [Cyc.toC_ofInt, h2]
+
 theorem Ang.eval_fixed (ρ : ℕ → ℝ) (a : Ang) (h : a.isFixed = true) : a.eval ρ = (a.p8 : ℝ) * (Real.pi / 8) := by
   unfold Ang.isFixed at h
   unfold Ang.eval
@@ -122,7 +149,7 @@ theorem toMatD_embedE (k : ℕ) (qs : List Nat) (m : ℕ) (U : DMat) (hm : qs.le
   rfl
 
 /-- names whose complex matrix `compactC` ties to the exact library -/
-def ecName (n : GName) : Bool := !([GName.CRX, .CRY, .CRZ, .CPHASE, .GLOBALPHASE].contains n)
+def ecName (n : GName) : Bool := !([GName.GLOBALPHASE].contains n)
 
 theorem half_angle (p8 : ℤ) (h : p8 % 2 = 0) : ((p8 : ℝ)) * (Real.pi / 8) = ((p8 / 2 : ℤ) : ℝ) * (Real.pi / 4) := by
   have : p8 = 2 * (p8 / 2) := by omega
@@ -149,15 +176,35 @@ theorem compact_EC (n : GName) (p8 : ℤ) (m : ℕ) (D : DMat) (hn : ecName n = 
     simp only [gateE] at h; split at h
     · rename_i he; cases h; simp only [compactC]; rw [toMatD_phasegate _ _ (half_angle p8 he)]
     · cases h
+  case CRX =>
+    simp only [gateE] at h; split at h
+    · rename_i he; cases h; simp only [compactC]
+      rw [rx_def]; rw [toMatD_ctrl _ _ _ _ _ _ (by rw [← rx_def]; exact toMatD_rx _ _ (half_angle p8 he))]
+    · cases h
+  case CRY =>
+    simp only [gateE] at h; split at h
+    · rename_i he; cases h; simp only [compactC]
+      rw [ry_def]; rw [toMatD_ctrl _ _ _ _ _ _ (by rw [← ry_def]; exact toMatD_ry _ _ (half_angle p8 he))]
+    · cases h
+  case CRZ =>
+    simp only [gateE] at h; split at h
+    · rename_i he; cases h; simp only [compactC]
+      rw [rz_def]; rw [toMatD_ctrl _ _ _ _ _ _ (by rw [← rz_def]; exact toMatD_rz _ _ (half_angle p8 he))]
+    · cases h
+  case CPHASE =>
+    simp only [gateE] at h; split at h
+    · rename_i he; cases h; simp only [compactC]
+      rw [phasegate_def]
+      rw [toMatD_ctrl _ _ _ _ _ _ (by rw [← phasegate_def]; exact toMatD_phasegate _ _ (half_angle p8 he))]
+    · cases h
   all_goals first
     | (simp [ecName] at hn; done)
     | (simp only [gateE] at h; cases h; rfl)
     | (simp only [gateE] at h; cases h)
 
-/-- gates for which the exact and the complex denotation are tied: not a controlled rotation
-(whose `compactC` ignores the angle) and a GLOBALPHASE carries no qubit -/
-def ecOK (g : Gate) : Bool :=
-  !([GName.CRX, .CRY, .CRZ, .CPHASE].contains g.name) && (g.name != .GLOBALPHASE || g.qubits.isEmpty)
+/-- gates for which the exact and the complex denotation are tied: a GLOBALPHASE carries no qubit
+(`gateDenE` does not look at the qubits of a GLOBALPHASE, `semG` requires none) -/
+def ecOK (g : Gate) : Bool := g.name != .GLOBALPHASE || g.qubits.isEmpty
 
 theorem phase_p8 (p8 : ℤ) : GateC.phase ((p8 : ℝ) * (Real.pi / 8)) = Cyc.toC (Cyc.zpow p8) := by
   rw [Cyc.toC_zpow]; unfold GateC.phase; congr 1; push_cast; ring
@@ -182,13 +229,7 @@ theorem gate_EC (k : ℕ) (ρ : ℕ → ℝ) (g : Gate) (D : DMat) (hok : ecOK g
       split at h
       · rename_i hc; cases h
         have hr : ∀ q ∈ g.qubits, q < k := by simpa using hc.2.2
-        have hn : ecName g.name = true := by
-          simp only [ecOK, Bool.and_eq_true, Bool.not_eq_true'] at hok
-          have h1 := hok.1
-          simp only [ecName, Bool.not_eq_true']
-          simp only [List.contains_eq_mem, List.mem_cons, List.not_mem_nil, or_false, decide_eq_false_iff_not,
-            not_or] at h1 ⊢
-          exact ⟨h1.1, h1.2.1, h1.2.2.1, h1.2.2.2, hname⟩
+        have hn : ecName g.name = true := by simp [ecName, hname]
         refine ⟨?_, WF_embedE _ _ _⟩
         rw [semD_of k ρ g m (toMatD m U) (by rw [hev]; exact compact_EC _ _ _ _ hn hg) hc.1 hc.2.1 hr,
           toMatD_embedE]
@@ -220,8 +261,7 @@ namespace Decomp
 
 /-- template gates whose instances satisfy `ecOK` -/
 def ecOKT (t : TGate) : Bool :=
-  !([GName.CRX, .CRY, .CRZ, .CPHASE].contains t.name) &&
-    (t.name != .GLOBALPHASE || (t.targets.isEmpty && t.controls.isEmpty))
+  t.name != .GLOBALPHASE || (t.targets.isEmpty && t.controls.isEmpty)
 
 theorem inst_ecOK (g : Gate) (t : TGate) (g' : Gate) (h : t.inst g = some g') (ht : ecOKT t = true) :
     ecOK g' = true := by
@@ -230,9 +270,8 @@ theorem inst_ecOK (g : Gate) (t : TGate) (g' : Gate) (h : t.inst g = some g') (h
   · rename_i ts cs h1 h2
     cases h
     simp only [ecOKT, Bool.and_eq_true, Bool.or_eq_true, List.isEmpty_iff] at ht
-    simp only [ecOK, Bool.and_eq_true, Bool.or_eq_true, List.isEmpty_iff, Gate.qubits]
-    refine ⟨ht.1, ?_⟩
-    rcases ht.2 with hn | ⟨ht1, ht2⟩
+    simp only [ecOK, Bool.or_eq_true, List.isEmpty_iff, Gate.qubits]
+    rcases ht with hn | ⟨ht1, ht2⟩
     · exact Or.inl hn
     · right
       rw [ht1] at h1; rw [ht2] at h2
